@@ -159,3 +159,49 @@ pub fn c17(cfg: &J) {
         }
     }
 }
+
+/// Two threads call `attach` on the unattached global at the same moment: exactly one of them
+/// gets a handle, the other one panics; the winner's sink stays attached until ITS handle is
+/// dropped.
+pub fn c17_attach(_cfg: &J) {
+    let log: GLog = Arc::new(Mutex::new(Vec::new()));
+    let threads: Vec<_> = (1..=2u8)
+        .map(|id| {
+            let log = log.clone();
+            thread::spawn(move || {
+                // (the catch region covers only the attach call; `attach` has no scheduling point
+                // after its own panic, so the flag cannot leak into another thread's panic)
+                mc::catching(|| VGlobal::attach(pair(id, &log))).ok()
+            })
+        })
+        .collect();
+    let handles: Vec<Option<metrique_writer_core::global::AttachHandle>> = threads.into_iter().map(|t| t.join().unwrap()).collect();
+    let winners: Vec<u8> = handles.iter().enumerate().filter(|(_, h)| h.is_some()).map(|(i, _)| i as u8 + 1).collect();
+    mc::outcome(format!("winners {winners:?} log {:?}", log.lock().unwrap()));
+    if winners.len() != 1 {
+        mc::violation("concurrent-attach-not-exclusive", format!("{} of 2 concurrent attach calls returned a handle (expected exactly one, the other panics): {:?}", winners.len(), log.lock().unwrap()));
+    }
+    let w = winners[0];
+    // the winner's sink is the attached one and still open
+    let tag = Tag { p: 7, seq: 7 };
+    if VGlobal::try_append(TaggedEntry(tag)).is_err() {
+        mc::violation("winner-not-attached", "after one attach succeeded try_append hands the entry back".into());
+    }
+    let l = log.lock().unwrap().clone();
+    match l.iter().find(|e| matches!(e, GEv::Accepted { tag: t, .. } if *t == tag)) {
+        Some(GEv::Accepted { sink, sink_closed, .. }) if *sink == w && !*sink_closed => {}
+        other => mc::violation("entry-not-routed-to-the-winner", format!("winner is sink {w} but the entry went to {other:?}: {l:?}")),
+    }
+    for (i, h) in handles.into_iter().enumerate() {
+        if let Some(h) = h {
+            drop(h);
+            let l = log.lock().unwrap().clone();
+            if !l.contains(&GEv::Closed(i as u8 + 1)) {
+                mc::violation("detach-did-not-close-own-sink", format!("dropping the handle of sink {} did not close it: {l:?}", i + 1));
+            }
+        }
+    }
+    if VGlobal::try_append(TaggedEntry(Tag { p: 9, seq: 9 })).is_ok() {
+        mc::violation("still-attached-after-detach", "try_append succeeded after the attach handle was dropped".into());
+    }
+}
